@@ -37,6 +37,14 @@ def term(fn, n, env, depth=0):
         if d['kind'] in ('parm', 'var'):
             if d['id'] in env:
                 return env[d['id']]
+            if d['kind'] == 'parm' and d['id'] in getattr(fn, 'param_subst', {}):
+                of, an = fn.param_subst[d['id']]        # collapsed forwarder: the parameter is a member of the object (facts.TU._collapse_forwarders)
+                return term(of, an, {}, depth + 1)
+            if d['kind'] == 'var':
+                fv = fn.var_decl_any(d['id'])
+                vt = fn.tu.type(d['t'])
+                if fv and fv[1].get('init') and vt and vt.get('ref') and depth < 30:
+                    return term(fv[0], fv[1]['init'], env if fv[0] is fn else {}, depth + 1)      # a local reference is another name of its initialiser
             return d['name']
     if 'cv' in o and c not in ('CXXMemberCallExpr', 'CallExpr', 'CXXOperatorCallExpr'):
         return str(o['cv'])
